@@ -71,7 +71,13 @@ def _template(node, mod):
     return None
 
 
+RE_FUNCS = ("match", "compile", "split", "search", "fullmatch", "sub", "subn", "findall", "finditer")
+
+
 def collect_patterns():
+    """every pattern the library can hand to `re`: module-level pattern objects, constant arguments of re.* calls, and - by a
+    small interprocedural data flow - whatever callers pass into functions that forward a parameter to re.* or to
+    <param>.match (pattern sinks such as _assert_matches_re and helpers extracted from it)"""
     import importlib
     pats = {}      # pattern string -> list of origins
     del DYNAMIC[:]
@@ -82,12 +88,16 @@ def collect_patterns():
         if isinstance(p, str):
             pats.setdefault(p, []).append({"origin": origin, "ref": ref})
     mods = {}
+    trees = {}
     for f in sorted(glob.glob(os.path.join(REPO, "productmd", "*.py"))):
         name = "productmd." + os.path.basename(f)[:-3] if not f.endswith("__init__.py") else "productmd"
         try:
             mods[f] = importlib.import_module(name)
         except Exception as e:
             raise RuntimeError("cannot import %s: %s" % (name, e))
+        with open(f) as fh:
+            trees[f] = ast.parse(fh.read(), f)
+    # ---- module-level pattern objects
     for f, mod in mods.items():
         for k, v in vars(mod).items():
             if isinstance(v, re.Pattern) and getattr(mod, "__name__", "").startswith("productmd"):
@@ -95,57 +105,133 @@ def collect_patterns():
             elif isinstance(v, (list, tuple)) and v and all(isinstance(x, re.Pattern) for x in v):
                 for i, x in enumerate(v):
                     add(x, "%s.%s[%d]" % (mod.__name__, k, i), [mod.__name__, k, i])
-        with open(f) as fh:
-            tree = ast.parse(fh.read(), f)
-        in_function = {}
-        for fdef in ast.walk(tree):
-            if isinstance(fdef, (ast.FunctionDef, ast.Lambda)):
-                for sub in ast.walk(fdef):
-                    in_function[id(sub)] = getattr(fdef, "name", "<lambda>")
+    # ---- functions, and the function each node belongs to
+    funcs = {}          # bare name -> [(file, FunctionDef)]
+    owner = {}          # id(node) -> (file, FunctionDef) of the innermost enclosing def
+    for f, tree in trees.items():
+        def visit(node, cur):
+            for ch in ast.iter_child_nodes(node):
+                nxt = cur
+                if isinstance(ch, (ast.FunctionDef, ast.AsyncFunctionDef)):
+                    funcs.setdefault(ch.name, []).append((f, ch))
+                    nxt = (f, ch)
+                owner[id(ch)] = nxt
+                visit(ch, nxt)
+        visit(tree, None)
 
-        def dynamic(e, where, n):
-            """a pattern argument that is not a constant of the module"""
-            fname = in_function.get(id(n))
-            if fname is None:
-                return          # module level: executed at import, the resulting pattern objects are collected above
-            if fname == "_assert_matches_re" and isinstance(e, ast.Name):
-                return          # the shared sink: its callers' pattern lists are collected
-            t = _template(e, mod)
-            DYNAMIC.append({"where": where, "function": fname, "expression": ast.unparse(e)[:200], "instantiated": t})
-            if t is not None:
-                add(t, "run-time pattern at %s: %s" % (where, ast.unparse(e)[:120]))
+    def params(fd):
+        a = fd.args
+        return [x.arg for x in a.posonlyargs + a.args + a.kwonlyargs]
+
+    def origin_of(fd, name):
+        """('param', name) | ('iter', expression iterated) | None for a local name of function fd"""
+        if name in params(fd):
+            return ("param", name)
+        for n in ast.walk(fd):
+            if isinstance(n, (ast.For, ast.comprehension)) and isinstance(n.target, ast.Name) and n.target.id == name:
+                return ("iter", n.iter)
+        return None
+    sinks = set()       # (function name, parameter name, 'pattern' | 'list')
+    work = []
+
+    def sink(fname, pname, kind):
+        k = (fname, pname, kind)
+        if k not in sinks:
+            sinks.add(k)
+            work.append(k)
+
+    def dynamic(e, where, fd, mod):
+        t = _template(e, mod)
+        DYNAMIC.append({"where": where, "function": fd.name if fd is not None else None, "expression": ast.unparse(e)[:200], "instantiated": t})
+        if t is not None:
+            add(t, "run-time pattern at %s: %s" % (where, ast.unparse(e)[:120]))
+
+    def pattern_expr(e, f, where):
+        """an expression used as ONE pattern"""
+        mod = mods[f]
+        own = owner.get(id(e))
+        fd = own[1] if own else None
+        if isinstance(e, ast.Constant):
+            if isinstance(e.value, str):
+                add(e.value, where)
+            return
+        v = _const_fold(e, mod)
+        if v is not None:
+            add(v, where)
+            return
+        if fd is None:
+            return          # module level: executed at import, the resulting objects are collected above
+        if isinstance(e, ast.Name):
+            o = origin_of(fd, e.id)
+            if o and o[0] == "param":
+                return sink(fd.name, o[1], "pattern")
+            if o and o[0] == "iter":
+                return list_expr(o[1], f, where)
+        dynamic(e, where, fd, mod)
+
+    def list_expr(e, f, where):
+        """an expression used as a LIST of patterns"""
+        mod = mods[f]
+        own = owner.get(id(e))
+        fd = own[1] if own else None
+        if isinstance(e, (ast.List, ast.Tuple)):
+            for x in e.elts:
+                pattern_expr(x, f, where)
+            return
+        v = _const_fold(e, mod)
+        if isinstance(v, (list, tuple)):
+            for x in v:
+                add(x, where)
+            return
+        if fd is None:
+            return
+        if isinstance(e, ast.Name):
+            o = origin_of(fd, e.id)
+            if o and o[0] == "param":
+                return sink(fd.name, o[1], "list")
+        dynamic(e, where, fd, mod)
+    # ---- direct uses: re.f(PATTERN, ...) and NAME.match(...) on a parameter / loop variable
+    for f, tree in trees.items():
         for n in ast.walk(tree):
-            if not isinstance(n, ast.Call):
+            if not isinstance(n, ast.Call) or not isinstance(n.func, ast.Attribute):
                 continue
-            fn = n.func
             where = "%s:%d" % (os.path.relpath(f, REPO), n.lineno)
-            if isinstance(fn, ast.Attribute) and isinstance(fn.value, ast.Name) and fn.value.id == "re" and \
-                    fn.attr in ("match", "compile", "split", "search", "fullmatch", "sub", "subn", "findall", "finditer"):
-                if n.args and isinstance(n.args[0], ast.Constant) and isinstance(n.args[0].value, str):
-                    add(n.args[0].value, where)
-                elif n.args:
-                    v = _const_fold(n.args[0], mod)
-                    if v is None:
-                        dynamic(n.args[0], where, n)
-                    add(v, where)
-            if isinstance(fn, ast.Attribute) and fn.attr == "_assert_matches_re" and len(n.args) >= 2:
-                lst = n.args[1]
-                if isinstance(lst, (ast.List, ast.Tuple)):
-                    for e in lst.elts:
-                        if isinstance(e, ast.Constant) and isinstance(e.value, str):
-                            add(e.value, where)
-                        else:
-                            v = _const_fold(e, mod)
-                            if v is None:
-                                dynamic(e, where, n)
-                            add(v, where)
-                else:
-                    v = _const_fold(lst, mod)
-                    if isinstance(v, (list, tuple)):
-                        for x in v:
-                            add(x, where)
-                    else:
-                        dynamic(lst, where, n)
+            fn = n.func
+            if isinstance(fn.value, ast.Name) and fn.value.id == "re" and fn.attr in RE_FUNCS and n.args:
+                pattern_expr(n.args[0], f, where)
+            elif fn.attr in ("match", "search", "fullmatch", "findall", "finditer", "subn") and isinstance(fn.value, ast.Name) and owner.get(id(n)):
+                # methods that only compiled patterns have (str has split/sub-like names, but none of these)
+                fd = owner[id(n)][1]
+                o = origin_of(fd, fn.value.id)
+                if o and o[0] == "param":
+                    sink(fd.name, o[1], "pattern")
+                elif o and o[0] == "iter":
+                    list_expr(o[1], f, where)
+    # ---- callers of the sinks (to a fixed point)
+    while work:
+        fname, pname, kind = work.pop()
+        for f2, fd in funcs.get(fname, []):
+            ps = params(fd)
+            if pname not in ps:
+                continue
+            for f, tree in trees.items():
+                for n in ast.walk(tree):
+                    if not isinstance(n, ast.Call):
+                        continue
+                    called = n.func.id if isinstance(n.func, ast.Name) else n.func.attr if isinstance(n.func, ast.Attribute) else None
+                    if called != fname:
+                        continue
+                    where = "%s:%d" % (os.path.relpath(f, REPO), n.lineno)
+                    pos = ps.index(pname) - (1 if isinstance(n.func, ast.Attribute) and ps and ps[0] in ("self", "cls") else 0)
+                    arg = None
+                    if 0 <= pos < len(n.args):
+                        arg = n.args[pos]
+                    for kw in n.keywords:
+                        if kw.arg == pname:
+                            arg = kw.value
+                    if arg is None:
+                        continue
+                    (pattern_expr if kind == "pattern" else list_expr)(arg, f, where)
     return pats
 
 
